@@ -39,9 +39,19 @@ def main(argv=None) -> int:
     rep = Report(pid, a.tier, seed)
     try:
         if a.replay:
-            mod.replay(rep, a.replay)
+            case_pid = None
+            try:
+                import json as _json
+                case_pid = _json.load(open(a.replay)).get("extra_module")
+            except Exception:
+                pass
+            (importlib.import_module(case_pid) if case_pid else mod).replay(rep, a.replay)
         else:
             mod.run(rep)
+            # growth of the specification beyond the listed clauses: extra specs that serve this property
+            from .extras import EXTRAS
+            for name in EXTRAS.get(pid, []):
+                importlib.import_module("vh." + name).run_stage(rep)
     except MachineryError as ex:
         print(f"MACHINERY-FAILURE property={pid}: {ex}", file=sys.stderr)
         return 2
